@@ -18,7 +18,7 @@ typedef struct tctx {
     int tid; uint64_t script_seed, yield_seed; int nops; int yield_pct; bool concurrent;
     int table_kind; uint64_t digest; uint64_t opcount[OP_N]; uint64_t model_mismatch; char first_mismatch[256];
     ival* iv; int niv;
-    uint64_t odd_clocks, decodes_without_lang_out;
+    uint64_t odd_clocks, decodes_without_lang_out, unsupported_inputs, refused_allocations;
     volatile int cur_op;          /* operation in progress (-1: none): read by the watchdog's hang probe only */
 } tctx;
 static uint64_t g_clk;
@@ -68,6 +68,10 @@ static void* worker(void* p) {
             pv_mseed m; pv_gen_mseed(&r, 3, true, &m);
             int st;
             bool pristine = true;
+            int expect = POLYSEED_OK;
+            if (pv_randn(&r, 10) == 0) { m.features |= 4; expect = POLYSEED_ERR_UNSUPPORTED; c->unsupported_inputs++; }      /* user bit 4 is not enabled in this process: the seed is built, refused and released */
+            bool refuse = pv_randn(&r, 12) == 0 && c->table_kind != 2;               /* the injected allocator (tables 0 and 1) refuses the next request */
+            if (refuse) { pv_w->fail_countdown = 1; c->refused_allocations++; }
             if (op == OP_LOAD) { pv_m_image(&m, img); if (pv_randn(&r, 8) == 0) { img[pv_randn(&r, 32)] ^= 2; pristine = false; } st = polyseed_load(img, &S[sl]); }
             else {
                 char ph[2048]; pv_m_encode(&m, L, coin, ph, sizeof ph);
@@ -79,8 +83,10 @@ static void* worker(void* p) {
                 if (st == POLYSEED_OK && op == OP_DECODE && want_lang) T = pv_mix(T, pv_hash_str(polyseed_get_lang_name_en(lo)));
             }
             T = pv_mix(T, (uint64_t)st);
-            if (pristine && st != POLYSEED_OK && !(op == OP_DECODE && st == POLYSEED_ERR_MULT_LANG) && !c->model_mismatch++)
-                snprintf(c->first_mismatch, sizeof c->first_mismatch, "%s of a valid %s (features %u, enabled 1|2) -> %s", OPN[op], op == OP_LOAD ? "image" : "phrase", m.features, pv_status_name(st));
+            bool was_refused = refuse && pv_w->fail_countdown == 0; pv_w->fail_countdown = 0;
+            if (pristine && was_refused) expect = POLYSEED_ERR_MEMORY;               /* memory comes before unsupported */
+            if (pristine && st != expect && !(op == OP_DECODE && st == POLYSEED_ERR_MULT_LANG) && !c->model_mismatch++)
+                snprintf(c->first_mismatch, sizeof c->first_mismatch, "%s of a valid %s (features %u, enabled 1|2%s) -> %s, expected %s", OPN[op], op == OP_LOAD ? "image" : "phrase", m.features, was_refused ? ", allocation refused" : "", pv_status_name(st), pv_status_name(expect));
             if (!pristine && st == POLYSEED_OK && !c->model_mismatch++) snprintf(c->first_mismatch, sizeof c->first_mismatch, "%s accepted a corrupted input", OPN[op]);
             if (st == POLYSEED_OK) M[sl] = m; else S[sl] = NULL;
             if (st == POLYSEED_OK) { polyseed_store(S[sl], img); uint8_t mi[32]; pv_m_image(&m, mi); if (memcmp(img, mi, 32) && !c->model_mismatch++) snprintf(c->first_mismatch, sizeof c->first_mismatch, "%s: decoded/loaded seed differs from the model", OPN[op]); T = pv_mix(T, pv_hash(img, 32, 1)); }
@@ -110,10 +116,15 @@ static void* worker(void* p) {
         uint64_t tr = tick();
         if (c->iv) c->iv[c->niv++] = (ival){ op, tc, tr };
         c->opcount[op]++;
+        /* this thread's allocator ledger: a block released twice or a pointer it never handed out (with the libc table the ledger sees nothing) */
+        if (c->table_kind != 2) for (int q = 0; q < pv_w->nev; ++q) if (pv_w->ev[q].kind == PV_EV_FREE && (pv_w->ev[q].a & (PV_FREE_DOUBLE | PV_FREE_FOREIGN)) && !c->model_mismatch++)
+            snprintf(c->first_mismatch, sizeof c->first_mismatch, "%s: the injected free received a block %s", OPN[op], (pv_w->ev[q].a & PV_FREE_DOUBLE) ? "twice" : "that the injected allocator of this thread never handed out");
         /* keep the per-thread event log bounded */
-        pv_w->nev = 0; pv_w->nkdf = 0;
+        pv_w->nev = 0; pv_w->nkdf = 0; pv_w->fail_countdown = 0;
     }
     for (int i = 0; i < NSL; ++i) if (S[i]) polyseed_free(S[i]);
+    if (c->table_kind != 2 && pv_w->nlive != 0 && !c->model_mismatch++) snprintf(c->first_mismatch, sizeof c->first_mismatch, "%d block(s) of this thread's allocator still allocated after all seeds were freed", pv_w->nlive);
+    pv_ledger_reclaim(0);
     c->digest = T;
     free(out); free(img); free(key);
     free(pv_w); pv_w = NULL;
@@ -160,7 +171,7 @@ static void run_rounds(uint64_t idx, pv_rng* rng) {
      * initialised under contention here */
     for (int t = 0; t < nt; ++t) {
         memset(&solo[t], 0, sizeof solo[t]); solo[t].tid = t; solo[t].script_seed = base + (uint64_t)t * 1315423911u; solo[t].nops = nops; solo[t].concurrent = false; solo[t].table_kind = kind;
-        conc[t] = solo[t]; conc[t].concurrent = true; conc[t].yield_pct = 20; conc[t].yield_seed = base ^ idx; conc[t].digest = 0; conc[t].model_mismatch = 0; conc[t].odd_clocks = 0; conc[t].decodes_without_lang_out = 0; conc[t].cur_op = -1; solo[t].cur_op = -1;
+        conc[t] = solo[t]; conc[t].concurrent = true; conc[t].yield_pct = 20; conc[t].yield_seed = base ^ idx; conc[t].digest = 0; conc[t].model_mismatch = 0; conc[t].odd_clocks = 0; conc[t].decodes_without_lang_out = 0; conc[t].unsupported_inputs = 0; conc[t].refused_allocations = 0; conc[t].cur_op = -1; solo[t].cur_op = -1;
         memset(conc[t].opcount, 0, sizeof conc[t].opcount);
         conc[t].iv = malloc(sizeof(ival) * (size_t)(nops * 2 + 8)); conc[t].niv = 0;
         pthread_create(&th[t], NULL, worker, &conc[t]);
@@ -197,8 +208,9 @@ static void run_rounds(uint64_t idx, pv_rng* rng) {
     for (int t = 0; t < nt; ++t) {
         PV_COUNT("evaluations", (uint64_t)nops);
         for (int o = 0; o < OP_N; ++o) pv_countf(conc[t].opcount[o], "ops.%s", OPN[o]);
-        PV_COUNT("ops.create_with_failing_or_odd_clock", conc[t].odd_clocks); PV_COUNT("ops.decode_with_lang_out_NULL", conc[t].decodes_without_lang_out);
+        PV_COUNT("ops.create_with_failing_or_odd_clock", conc[t].odd_clocks); PV_COUNT("ops.decode_with_lang_out_NULL", conc[t].decodes_without_lang_out); PV_COUNT("ops.constructor_with_unsupported_feature", conc[t].unsupported_inputs); PV_COUNT("ops.constructor_with_refused_allocation", conc[t].refused_allocations);
         if (solo[t].model_mismatch) pv_violation("C20/solo-run-differs-from-model", "thread script %d alone: %s", t, solo[t].first_mismatch);
+        else if (conc[t].model_mismatch) pv_violation("C20/concurrent-run-differs-from-model", "round %llu, %d threads, thread %d: %s", (unsigned long long)idx, nt, t, conc[t].first_mismatch);
         if (conc[t].digest != solo[t].digest) pv_violation("C20/concurrent-result-differs-from-serial", "round %llu, %d threads, thread %d: transcript digest %016llx concurrently, %016llx alone%s%s",
                 (unsigned long long)idx, nt, t, (unsigned long long)conc[t].digest, (unsigned long long)solo[t].digest, conc[t].model_mismatch ? "; first model mismatch: " : "", conc[t].model_mismatch ? conc[t].first_mismatch : "");
         else if (overlapping > 0) { PV_DISTINCT("nontrivial", pv_mix(solo[t].script_seed, idx * 64 + (uint64_t)t)); PV_COUNT("threads.digest_equal_to_solo", 1); }
